@@ -5,6 +5,7 @@
     listed in harness/props/c08.py ([not_modelled]). *)
 From InvokeVerif Require Import Model.RunnerSM Spec.C08Spec Corr.RunnerCorr.
 From InvokeVerif Require Import Proofs.RunnerSM_facts Proofs.C08_sm Proofs.RunnerSM_sweep Proofs.C08_flagship.
+From InvokeVerif Require Import Model.RunnerBursts Proofs.C08_bursts.
 
 (** Whenever the process comes to an end (exit, kill on timeout, exit right
     after a forwarded interrupt) and the readers get EOF -- for EVERY event
@@ -169,6 +170,47 @@ Example C08_ex_dead_worker :    (* stderr worker dies, stdout pipe held: 1 s joi
   s_pc (fst (run_sm c script)) = PDone OFailure /\ n_expired (snd (run_sm c script)) = 1 /\
   o_alive (observe (run_sm c script)) = [WOut].
 Proof. vm_compute. auto. Qed.
+
+(** * Poll granularity of the wait loop (Model/RunnerBursts.v)
+    The script as a list of BURSTS: the events of one burst fall between the same two
+    iterations of [Runner.wait] (the main thread runs once per burst, not once per event).
+    One event per burst is the model of all the theorems above. *)
+Theorem C08_bursts_refine_scripts :
+  forall c script, run_bursts c (group script []) = run_sm c script.
+Proof. exact run_bursts_singletons. Qed.
+
+(** The wait loop polls the process FIRST in every iteration ([process_is_finished] is
+    evaluated before [has_dead_threads], never short-circuited away): while the loop is
+    still waiting, a burst in which the process ends -- whatever else happens in that
+    burst, worker deaths before or after the exit included -- is followed by a poll that
+    reaps the child.  ([plain]: events that are not themselves tied to a poll, i.e. no
+    interrupts; stdin-worker reads happen at that worker's own pace.)  Contrast: the death
+    ONE ITERATION before the end leaves the loop without that poll (F-C08d,
+    [C08_reaped_refuted]). *)
+Theorem C08_burst_end_reaped :
+  forall c s b,
+    in_wait (fst s) = true -> forallb plain b = true ->
+    (s_proc (fst s) <> None \/ existsb is_exit b = true) ->
+    s_reaped (fst (step_burst c s b)) = true.
+Proof. exact burst_reaps. Qed.
+
+(** ... and the child stays reaped until run()/join() is over, whatever follows. *)
+Theorem C08_run_bursts_end_reaped :
+  forall c pre b post,
+    in_wait (fst (run_burst_events c (advance c (init c)) pre)) = true ->
+    forallb plain b = true -> existsb is_exit b = true ->
+    s_reaped (fst (run_bursts c (pre ++ b :: post))) = true.
+Proof. exact run_bursts_end_reaped. Qed.
+
+Example C08_ex_burst :   (* pty, stdout worker dies, exit 0: same interval (both orders) -> reaped; an iteration apart -> not *)
+  let c := mkCfg true false false false false false false false in
+  let d := EExc WOut XOther in
+  observe (run_bursts c [[d; EExit 0%Z]]) =
+    mkSmObs (Some OThreadException) 0 0 0 1 true [] false false true 0 0 [(WOut, false)] /\
+  o_reaped (observe (run_bursts c [[EExit 0%Z; d]])) = true /\
+  o_reaped (observe (run_bursts c [[d]; [EExit 0%Z]])) = false /\
+  in_wait (fst (run_burst_events c (advance c (init c)) [])) = true.
+Proof. exact burst_witness. Qed.
 
 (** * Historical record: F-C08c (fixed)
     Before the fix [_thread_join_timeout] looked only at the out/err sibling: with
